@@ -304,7 +304,7 @@ def part_big(ctx):
     full = b"".join(pkts)
     n = 0
     for cut in (len(full), len(full) - 3, 307 * 65542 + 10):
-        for kind, rs in (("bytesio", 100000), ("bytesio", 65542), ("socket", 4096)):
+        for kind, rs in (("bytesio", 100000), ("bytesio", 65542), ("socket", 4096), ("bytes", None), ("bytesio", None)):
             data = full[:cut]
             ctx.count()
             n += 1
